@@ -1,6 +1,6 @@
 """C07 - results do not depend on the textual order or naming used in a program."""
 import base64, pickle, copy
-from .. import impl, explore, semcheck, families, refsem, variants, functor_model
+from .. import impl, explore, semcheck, families, refsem, variants, functor_model, compare
 from ..semcheck import Case
 from . import c01, c02
 
@@ -26,7 +26,26 @@ def base_cases(thorough):
     if c.info['depth'] in (2, 3, 21) and c.info['shape'] in ('tc_right', 'mutual_cut', 'even_odd', 'mutual_flat_small', 'ring3', 'shortest_path', 'through_functor', 'two_components', 'counter_set'):
       c.dbs = c.dbs[::4]
       out.append(c)
+  out += array_cases()
   return out
+
+
+def array_cases():
+  """Array= (key -> value) with repeated keys: every pair is kept, so (unlike tied ArgMin/ArgMax) nothing is chosen and the value may not
+  depend on arrival order. No reference model: variants are compared with the implementation's own result on the original."""
+  from ..lang import R, Lit, V, N, Bin, Aggr, Comb, Eq, Program
+  x, y, z = V('x'), V('y'), V('z')
+  arrow = lambda a, b: ('arrow', a, b)
+  dbs = [d for d in semcheck.dbs_ab(3) if len(d['B']) <= 1 and len({r[1] for r in d['A']}) < len(set(d['A']))]     # some key (col1) carries two different values
+  progs = [
+    [R('T', Aggr('Array', arrow(y, x)), body=(Lit('A', x, y),), distinct=True)],
+    [R('T', y, Aggr('Array', arrow(y, x)), body=(Lit('A', x, y),), distinct=True)],
+    [R('T', Aggr('Array', arrow(y, Bin('*', x, N(10)))), Aggr('Sum', x), body=(Lit('A', x, y),), distinct=True)],
+    [R('T', Aggr('Array', arrow(N(1), ('list', (x, y)))), body=(Lit('A', x, y),), distinct=True)],
+    [R('T', Aggr('Array', arrow(y, x)), body=(Lit('A', x, y),), distinct=True), R('T', Aggr('Array', arrow(x, y)), body=(Lit('A', x, y), Lit('B', x)), distinct=True)],
+    [R('T', z, V('s'), body=(Lit('B', z), Eq(V('s'), Comb('Array', arrow(y, x), (Lit('A', x, y),)))))],
+  ]
+  return [Case('ARRAY', Program(p), ['T'], dbs=dbs, fact_dbs=[dbs[5]], info=dict(shape='array', depth=0)) for p in progs]
 
 
 def cases(thorough):
@@ -72,14 +91,14 @@ def work(task):
     # recursion that is cut at one predicate is only sandwiched by the reference semantics (C03): for those shapes the
     # variant is compared with the implementation's own result on the original program (metamorphic oracle)
     orig_impl = None
-    if c.family.startswith('REC/') and c.info['shape'] in ('mutual_cut', 'even_odd', 'ring3') and c.info['depth'] <= 20:
+    if c.family == 'ARRAY' or c.family.startswith('REC/') and c.info['shape'] in ('mutual_cut', 'even_odd', 'ring3') and c.info['depth'] <= 20:
       orig_impl = {}
       comp = impl.Compiled(c.text()); conn = h.conn(c.schema)
       for pred in c.preds:
         script = comp.sql(pred)
         for d in dbs + (c.fact_dbs or [])[:1]:
           conn.load(d); got = conn.run(script) if script[0] == 'script' else script
-          if got[0] == 'rows': orig_impl[(pred, repr(sorted(d.items())))] = (got[1], [tuple(r) for r in got[2]])
+          if got[0] == 'rows': orig_impl[(pred, repr(sorted(d.items())))] = (got[1], [tuple(compare.norm_got(v) for v in r) for r in got[2]])
     for v in variants.variants(c.program, c.preds, thorough):
       kind, prog, preds = v[0], v[1], v[2]
       pm = v[3] if len(v) > 3 else {}
